@@ -624,8 +624,9 @@ func newEnvironment(userVars map[string]string, newId uid.ID) (env *Environment,
 					errorMsg = e.Err.Error()
 				}
 
-				if e.Event == "STOP_ACTIVITY" {
-					// If the event is STOP_ACTIVITY, we remove the active run number after all hooks are done.
+				if e.Event == "STOP_ACTIVITY" || (e.Event == "GO_ERROR" && e.Src == "RUNNING") {
+					// If the event ends a run (STOP_ACTIVITY, or GO_ERROR while RUNNING), we remove the active
+					// run number after all hooks are done.
 					env.workflow.GetVars().Set("last_run_number", strconv.Itoa(int(env.currentRunNumber)))
 					env.currentRunNumber = 0
 					env.workflow.GetVars().Del("run_number")
